@@ -240,7 +240,9 @@ class Ctx:
                     self.known_hits[key] = k.get("what", what)
                 self.count("known_findings", key)
                 return
-        if len(self.violations) >= 25:
+        # keep the output readable: at most 8 concrete and 4 correspondence-only reports per run
+        if sum(1 for v in self.violations if v["concrete"] == concrete) >= (8 if concrete else 4):
+            self.count("suppressed_reports", "concrete" if concrete else "correspondence")
             return
         d = os.path.join(ROOT, "replays", self.pid)
         os.makedirs(d, exist_ok=True)
@@ -279,7 +281,10 @@ class Ctx:
         json.dump(ev, open(os.path.join(ROOT, "evidence", self.pid + ".json"), "w"), indent=1, default=str)
         for key, what in self.known_hits.items():
             print(f"KNOWN-FINDING: property={self.pid} {key}: {what}")
-        for v in self.violations:
+        have_concrete = any(v["concrete"] for v in self.violations)
+        for v in sorted(self.violations, key=lambda v: not v["concrete"]):
+            if have_concrete and not v["concrete"]:
+                continue        # a failing input was found: the broken correspondence is explained by it
             tail = "" if v["concrete"] else " no-failing-input-found"
             print(f"VIOLATION property={self.pid} replay={v['path']}{tail}")
         print(f"[{self.pid}] tier={self.tier} seed={self.seed} obligations={n_dis}/{n_obl} evaluations={self.evaluations} "
